@@ -99,6 +99,23 @@ RANGE_UNITS = {
 }
 
 
+_ANCHORS = None
+
+
+def rule_anchors():
+    """every identifier that appears as a string literal in the rule sources (sa/lhsa/**/*.py): the functions the rules name are among
+    them; names that are not functions are ignored by the marker"""
+    global _ANCHORS
+    if _ANCHORS is None:
+        import glob, re
+        names = set()
+        here = os.path.dirname(os.path.abspath(__file__))
+        for p in glob.glob(os.path.join(here, "*.py")) + glob.glob(os.path.join(here, "props", "*.py")):
+            names |= set(re.findall(r"""["']([A-Za-z_][A-Za-z0-9_]*)["']""", open(p).read()))
+        _ANCHORS = names
+    return _ANCHORS
+
+
 class Views:
     """Holds a temp dir with the compiled views; use as a context manager."""
 
@@ -141,7 +158,15 @@ class Views:
         linked = os.path.join(self.dir, "plain.link.bc")
         outbc = os.path.join(self.dir, "plain.bc")
         _run([LLVM_LINK] + [self.units[k] for k in sorted(self.units)] + ["-o", linked])
-        _run([OPT, "-passes=function(sroa,early-cse)", linked, "-o", outbc])
+        # Normalisation: private helper functions that no rule names are folded into their callers, so that extracting a helper from
+        # (or splitting) a function the rules do name leaves the analysed program unchanged.  Functions named by a rule, external,
+        # address-taken and recursive functions keep their identity.
+        anchors = os.path.join(self.dir, "anchors.txt")
+        with open(anchors, "w") as f:
+            f.write("\n".join(sorted(rule_anchors())) + "\n")
+        marked = os.path.join(self.dir, "plain.marked.bc")
+        self.mark_stats = _run([IRX, "--mark", anchors, linked, marked]).strip()
+        _run([OPT, "-passes=always-inline,globaldce,function(sroa,early-cse)", marked, "-o", outbc])
         js = os.path.join(self.dir, "plain.json")
         _run([IRX, outbc, js])
         self._plain = js
